@@ -429,7 +429,7 @@ func (r *Runner) doRecv(bctx sdk.Context, ln *Line) {
 			esc = "esc1"
 		}
 		ln.Obs.X["big"] = map[string]any{
-			"esc": dec(esc), "orb": digitsOf(post["orb"]), "dust": inc("dust"),
+			"esc": dec(esc), "orb": digitsOf(post["orb"]), "orbPre": digitsOf(bigPre["orb"]), "dust": inc("dust"),
 			"F1": inc("F1"), "F2": inc("F2"), "U": inc("U"),
 		}
 	}
@@ -655,6 +655,11 @@ func (r *Runner) doEnv(bctx sdk.Context, ln *Line) {
 			return
 		}
 		msg = &banktypes.MsgSend{FromAddress: w.acct["U"].String(), ToAddress: w.acct["esc0"].String(), Amount: sdk.NewCoins(bal)}
+	case "bigdust":
+		// somebody deposits 2^64 base units of the big denom on the orbiter account (the coins are
+		// taken from the escrow, as if they had been transferred in and sent on earlier)
+		two64, _ := math.NewIntFromString("18446744073709551616")
+		msg = &banktypes.MsgSend{FromAddress: w.acct["esc0"].String(), ToAddress: w.acct["orb"].String(), Amount: sdk.NewCoins(sdk.NewCoin("ubig", two64))}
 	default:
 		panic(machineryError{"unknown env op " + in.Op})
 	}
@@ -664,7 +669,7 @@ func (r *Runner) doEnv(bctx sdk.Context, ln *Line) {
 	res, _ := r.msgOn(bctx, msg)
 	r.instr = saved
 	ln.Res = res
-	if in.Op == "bigback" && res.Ack == "ok" {
+	if (in.Op == "bigback" || in.Op == "bigdust") && res.Ack == "ok" {
 		// ICS-20's own escrow bookkeeping, as a real outgoing transfer would update it
 		w.app.TransferKeeper.SetTotalEscrowForDenom(bctx, w.app.BankKeeper.GetBalance(bctx, w.acct["esc0"], "ubig"))
 	}
